@@ -21,19 +21,19 @@ Proof.
 Qed.
 
 (* ---------- count_sizes ---------- *)
-Lemma count_sizes_spec : forall cs bits, Forall (fun c => 0 <= c <= 17) cs -> length bits = 33%nat ->
-  exists bits', count_sizes cs bits = Ok bits' /\ length bits' = 33%nat /\
-    forall i, 0 <= i < 33 -> znth bits' i 0 = znth bits i 0 + (if 1 <=? i then cnt cs i else 0).
+Lemma count_sizes_spec : forall cs bits, Forall (fun c => 0 <= c <= 17) cs -> zlen bits = 257 ->
+  exists bits', count_sizes cs bits = Ok bits' /\ zlen bits' = 257 /\
+    forall i, 0 <= i < 257 -> znth bits' i 0 = znth bits i 0 + (if 1 <=? i then cnt cs i else 0).
 Proof.
   induction cs as [|c cs IH]; intros bits Hc Hl.
   - exists bits. split; [reflexivity|]. split; [assumption|]. intros i Hi. unfold cnt, zlen. cbn. destruct (1 <=? i); lia.
   - inversion Hc as [|? ? Hc0 Hc']; subst. cbn [count_sizes].
     destruct (Z.ltb_spec 0 c) as [Hpos|Hz].
-    + destruct (Z.ltb_spec 32 c); [lia|].
-      destruct (IH (zupd bits c (znth bits c 0 + 1)) Hc' ltac:(rewrite zupd_length; assumption)) as (bits' & E & L & Hv).
+    + destruct (Z.ltb_spec 256 c); [lia|].
+      destruct (IH (zupd bits c (znth bits c 0 + 1)) Hc' ltac:(unfold zlen in *; rewrite zupd_length; assumption)) as (bits' & E & L & Hv).
       exists bits'. split; [exact E|]. split; [exact L|]. intros i Hi. rewrite Hv by assumption. rewrite cnt_cons. unfold delta.
       destruct (Z.eqb_spec i c) as [->|Hne].
-      * rewrite znth_zupd_same by (unfold zlen; lia). destruct (Z.leb_spec 1 c); lia.
+      * rewrite znth_zupd_same by lia. destruct (Z.leb_spec 1 c); lia.
       * rewrite znth_zupd_other by (intros E'; apply Hne; symmetry; exact E'). destruct (1 <=? i); lia.
     + destruct (IH bits Hc' Hl) as (bits' & E & L & Hv).
       exists bits'. split; [exact E|]. split; [exact L|]. intros i Hi. rewrite Hv by assumption. rewrite cnt_cons. unfold delta.
@@ -58,23 +58,28 @@ Proof.
 Qed.
 
 Lemma count_sizes_b17 : forall cs, Forall (fun c => 0 <= c <= 17) cs ->
-  count_sizes cs (repeat 0 33) = Ok (0 :: b17_of cs ++ repeat 0 15).
+  count_sizes cs (repeat 0 257) = Ok (0 :: b17_of cs ++ repeat 0 239).
 Proof.
-  intros cs Hc. destruct (count_sizes_spec cs (repeat 0 33) Hc eq_refl) as (bits' & E & L & Hv).
+  intros cs Hc. destruct (count_sizes_spec cs (repeat 0 257) Hc eq_refl) as (bits' & E & L & Hv).
+  assert (L2 : zlen (0 :: b17_of cs ++ repeat 0 239) = 257).
+  { unfold zlen. cbn [length]. rewrite app_length, repeat_length. unfold b17_of. rewrite map_length, seqZ_length. reflexivity. }
   rewrite E. f_equal. apply list_ext_znth.
-  - rewrite L. cbn [length]. rewrite app_length, repeat_length. unfold b17_of. rewrite map_length, seqZ_length. reflexivity.
-  - intros i Hi. unfold zlen in Hi. rewrite L in Hi. rewrite Hv by lia. rewrite znth_repeat by lia.
+  - unfold zlen in L, L2. apply Nat2Z.inj. rewrite L, L2. reflexivity.
+  - intros i Hi. rewrite L in Hi. rewrite Hv by lia.
+    change (repeat 0 257) with (repeat 0 (Z.to_nat 257)). rewrite znth_repeat by (rewrite Z2Nat.id; lia).
     destruct (Z.eq_dec i 0) as [->|Hi0]; [reflexivity|].
     destruct (Z.leb_spec 1 i); [|lia].
     unfold znth. destruct (Z.ltb_spec i 0); [lia|].
     replace (Z.to_nat i) with (S (Z.to_nat (i - 1))) by lia. cbn [nth].
+    assert (Hb17 : length (b17_of cs) = 17%nat) by (unfold b17_of; rewrite map_length, seqZ_length; reflexivity).
     destruct (Z_lt_le_dec i 18) as [Hlt|Hge].
-    + rewrite app_nth1 by (unfold b17_of; rewrite map_length, seqZ_length; lia).
+    + rewrite app_nth1 by (rewrite Hb17; lia).
       pose proof (znth_map_seqZ (cnt cs) 1 17 (i - 1) ltac:(lia)) as Hz. unfold znth in Hz.
       destruct (Z.ltb_spec (i - 1) 0); [lia|]. unfold b17_of. rewrite Hz. rewrite Z.add_0_l. f_equal. lia.
-    + rewrite app_nth2 by (unfold b17_of; rewrite map_length, seqZ_length; lia).
-      rewrite nth_repeat' by (unfold b17_of; rewrite map_length, seqZ_length; lia).
-      rewrite Z.add_0_l. apply cnt_zero. eapply Forall_impl; [|exact Hc]. cbv beta. intros; lia.
+    + rewrite app_nth2 by (rewrite Hb17; lia). rewrite Hb17.
+      assert (Hz : nth (Z.to_nat (i - 1) - 17) (repeat 0 239) 0 = 0).
+      { clear. generalize (Z.to_nat (i - 1) - 17)%nat as k. generalize 239%nat as n. induction n; intros k; destruct k; cbn [repeat nth]; auto. }
+      rewrite Hz. rewrite Z.add_0_l. apply cnt_zero. eapply Forall_impl; [|exact Hc]. cbv beta. intros; lia.
 Qed.
 
 (* ---------- sums over the count vector ---------- *)
@@ -213,8 +218,8 @@ Proof.
   { split; [lia|]. assert (Hin : In (znth cs 256 0) cs) by (rewrite Hcs at 2; apply in_or_app; right; left; reflexivity).
     apply (proj1 (Forall_forall _ _) Hr) in Hin. lia. }
   unfold opt_values. fold l.
-  assert (Hin_spec : forall x, In x (flat_map (fun size => syms_of_size l 0 size) (seqZ 1 32)) <->
-                               0 <= x < 256 /\ 1 <= nth (Z.to_nat x) l 0 <= 32).
+  assert (Hin_spec : forall x, In x (flat_map (fun size => syms_of_size l 0 size) (seqZ 1 256)) <->
+                               0 <= x < 256 /\ 1 <= nth (Z.to_nat x) l 0 <= 256).
   { intros x. rewrite in_flat_map. split.
     - intros (size & Hs & Hx). apply In_seqZ_inv in Hs. apply syms_spec in Hx. unfold zlen in Hx. rewrite Hll, Z.sub_0_r in Hx. lia.
     - intros [H1 H2]. exists (nth (Z.to_nat x) l 0). split; [apply In_seqZ; lia|].
@@ -222,8 +227,8 @@ Proof.
   split; [|split; [|split]].
   - rewrite flat_map_zlen.
     rewrite (map_ext _ (fun s => cnt l s)) by (intros; apply syms_len).
-    change 32%nat with (17 + 15)%nat. rewrite seqZ_app, map_app, zsum_app.
-    rewrite (zsum_map_zero (fun s => cnt l s) (seqZ (1 + Z.of_nat 17) 15)).
+    change 256%nat with (17 + 239)%nat. rewrite seqZ_app, map_app, zsum_app.
+    rewrite (zsum_map_zero (fun s => cnt l s) (seqZ (1 + Z.of_nat 17) 239)).
     2:{ intros x Hx. apply In_seqZ_inv in Hx. apply cnt_zero. eapply Forall_impl; [|exact Hrl]. cbv beta. intros; lia. }
     unfold b17_of. rewrite Hcs at 1.
     rewrite (map_ext (cnt (l ++ [znth cs 256 0])) (fun i => cnt l i + delta i (znth cs 256 0))).
@@ -247,9 +252,9 @@ Qed.
 Lemma build_optimal_unfold : forall freqs,
   build_optimal freqs =
   obind (merge_loop 258 (freq0 freqs) (repeat 0 257) (repeat (-1) 257)) (fun cs =>
-  obind (count_sizes cs (repeat 0 33)) (fun bits =>
-  obind (limit_all sizes_32_17 bits) (fun bits' =>
-    Ok (firstn 16 (skipn 1 (remove_pseudo 33 bits' 32)), opt_values cs)))).
+  obind (count_sizes cs (repeat 0 257)) (fun bits =>
+  obind (limit_all sizes_hi bits) (fun bits' =>
+    Ok (firstn 16 (skipn 1 (remove_pseudo 257 bits' 256)), opt_values cs)))).
 Proof. reflexivity. Qed.
 
 Lemma table_ok_intro : forall bits vals, length bits = 16%nat ->
@@ -276,7 +281,7 @@ Proof.
   intros freqs Hok Hne. destruct (merge_result freqs Hok Hne) as (cs & Eloop & Hsz).
   pose proof Hsz as (Hl & Hr & Hw & Hn & H256 & Hcov).
   destruct (b17_sums cs Hr) as [Bk Bs].
-  assert (Hpost : post_of (limit_all sizes_32_17 (0 :: b17_of cs ++ repeat 0 15)) (zsum (b17_of cs)) = true).
+  assert (Hpost : post_of (limit_all sizes_hi (0 :: b17_of cs ++ repeat 0 239)) (zsum (b17_of cs)) = true).
   { apply post_ok.
     - unfold b17_of. rewrite map_length, seqZ_length. reflexivity.
     - unfold b17_of. apply Forall_forall. intros x Hx. apply in_map_iff in Hx. destruct Hx as (i & <- & _). apply cnt_nonneg.
@@ -284,7 +289,7 @@ Proof.
     - rewrite Bk. exact Hw. }
   destruct (post_of_inv _ _ Hpost) as (bits' & Elim & P1 & P2 & P3 & P4).
   destruct (opt_values_facts cs freqs Hsz) as (Vl & Vb & Vn & Vc).
-  exists (firstn 16 (skipn 1 (remove_pseudo 33 bits' 32))), (opt_values cs).
+  exists (firstn 16 (skipn 1 (remove_pseudo 257 bits' 256))), (opt_values cs).
   split; [|split; [|exact Vc]].
   - rewrite build_optimal_unfold, Eloop, obind_Ok', (count_sizes_b17 cs Hr), obind_Ok', Elim. reflexivity.
   - apply table_ok_intro; try assumption. rewrite P2, Vl. reflexivity.
